@@ -128,6 +128,8 @@ def graph_case(rng):
 
 
 def gen_case(rng, i):
+    if i % 50 == 49:
+        return {"gen": "many", "text": hostile.many_decls_case(rng)}
     k = i % 9
     if k == 8:
         return {"gen": "graph", "text": graph_case(rng)}
